@@ -507,7 +507,21 @@ func verifToProto(t *ketoapi.RelationTuple) *rts.RelationTuple {
 
 // expected decision for a valid API tuple at depth d: what the engine core
 // (the uninterpreted function) says for the mapped tuple.
+// verifIsKnownNS: the oracle's own view of the configuration (not the mapper's).
+func verifIsKnownNS(name string) bool {
+	for _, n := range verifKnownNamespaces {
+		if n.Name == name {
+			return true
+		}
+	}
+	return false
+}
+
 func verifExpected(d *verifDeps, t *ketoapi.RelationTuple, depth int) (allowed bool, engineErr bool, unknownNS bool) {
+	// a relationship that names an unknown namespace, as its own or as its subject set's
+	if !verifIsKnownNS(t.Namespace) || (t.SubjectSet != nil && !verifIsKnownNS(t.SubjectSet.Namespace)) {
+		return false, false, true
+	}
 	it, err := d.roMap.FromTuple(context.Background(), t)
 	if err != nil {
 		return false, false, true
